@@ -458,6 +458,11 @@ O(id='uper_open_type_put.leak', props=['C14', 'C07'], kind='bounded', entry='h_u
   bound='an open type whose contents are 0..8 bits, written at the end of the 32-octet scratch space; callback may fail at any call; every allocation may fail',
   min_props=50, timeout=900, tier='experimental')
 
+# ---------------------------------------------------------------- UTF8String
+O(id='UTF8String.b6', props=['C08', 'C04'], kind='bounded', entry='h_UTF8String', harness='harness/h_utf8.c', units=[SK + 'UTF8String.c'], tier='experimental',
+  functions=['UTF8String__process', 'UTF8String_length', 'UTF8String_constraint', 'UTF8String_to_wcs'], unwind=9,
+  bound='every octet string of at most 6 octets, destination of 0..4 code points', min_props=40, timeout=600)
+
 # ---------------------------------------------------------------- NULL through the encoder API
 O(id='NULL_asn_encode', props=['C07', 'C02'], kind='bounded', entry='h_NULL_asn_encode', harness='harness/h_null.c', units=[SK + 'NULL.c', SK + 'asn_application.c'],
   functions=['NULL_encode_der', 'NULL_encode_oer', 'asn_encode', 'asn_encode_internal', 'der_write_tags'],
